@@ -145,7 +145,8 @@ def _run_hyp(prop, cl, n, seed, tier, kf_open):
                     report_multiple_bugs=False, print_blob=False,
                     suppress_health_check=[HealthCheck.too_slow, HealthCheck.data_too_large,
                                            HealthCheck.large_base_example],
-                    phases=(Phase.explicit, Phase.generate, Phase.shrink))(test)
+                    phases=(Phase.explicit, Phase.generate) if os.environ.get("VERIF_NO_SHRINK") else
+                    (Phase.explicit, Phase.generate, Phase.shrink))(test)
     test = hypothesis.seed(seed)(test)
     failure = None
     try:
@@ -192,7 +193,8 @@ def _run_machine(prop, cl, n, seed, tier, kf_open):
     sett = settings(max_examples=n, stateful_step_count=cl.steps[tier], database=None, deadline=None, derandomize=False,
                     report_multiple_bugs=False, print_blob=False,
                     suppress_health_check=[HealthCheck.too_slow, HealthCheck.data_too_large, HealthCheck.large_base_example],
-                    phases=(Phase.explicit, Phase.generate, Phase.shrink))
+                    phases=(Phase.explicit, Phase.generate) if os.environ.get("VERIF_NO_SHRINK") else
+                    (Phase.explicit, Phase.generate, Phase.shrink))
     failure = None
     import io
     import contextlib
@@ -393,7 +395,16 @@ def main(argv=None):
     else:
         ctx = mp.get_context("fork")
         with ctx.Pool(procs, maxtasksperchild=1) as pool:
-            results = pool.map(worker, tasks, chunksize=1)
+            if os.environ.get("VERIF_FAIL_FAST"):
+                # development aid (selftest/auto_mutants.py): stop at the first violating task; evidence is incomplete then
+                results = []
+                for r in pool.imap_unordered(worker, tasks, chunksize=1):
+                    results.append(r)
+                    if r["failure"] and r["failure"].get("kind") == "violation":
+                        pool.terminate()
+                        break
+            else:
+                results = pool.map(worker, tasks, chunksize=1)
 
     per_clause = {}
     for cl in clauses:
